@@ -7,3 +7,6 @@ var TarsFiles = []string{}
 
 // Types lists every generated struct type found.
 var Types = []Entry{}
+
+// Ifaces lists every generated interface for which a stub was written.
+var Ifaces = []IfaceEntry{}
